@@ -48,22 +48,29 @@ def run(ctx):
             sw = kit.switch_on_discr_of_local(pz, nb)
             if sw and sw[0]["l"] == t["dest"]["l"]:
                 bsw = nb
-    ctx.need(bsw is not None, "bounds test at the top of the pausing function")
-    t = pz.term(bsw)
-    tg = {v: x for v, x in t["targets"]}
-    equal_edge = (bsw, tg[0]) if 0 in tg else (bsw, t["otherwise"])
-    ctx.need(pz.dominates(bsw, dispatch_bb), "bounds test dominates the state dispatch")
-    r = pz.reachable(0, avoid=wb, edge_filter=lambda s, d: (s, d) != equal_edge)
-    ctx.instance(1)
-    ok = dispatch_bb not in r
-    ctx.oblig(ok, {"condition": "PC outside [origin, 0xFE00)", "wait assignments": len(wb)}, "must-pass WaitForAction on every non-Equal path")
-    if not ok:
-        p = _path(pz, 0, dispatch_bb, wb, equal_edge)
-        conds = _conds_on_path(pz, p)
-        ctx.violation("bounds-skip-no-wait", sp_file_line(pz.term(bsw).get("sp")),
-                      "with the PC outside user space a path reaches the state dispatch without resetting the status (lines %s; "
-                      "branch conditions: %s): under `continue`/`step` the run loop then skips execution forever without reading "
-                      "a command" % (pz.path_lines(p), conds))
+    ctx.need(any(c == "lace::runtime::RunState::check_pc_bounds" for b, t, c in pz.calls()), "check_pc_bounds call in the pausing function")
+    if bsw is None or not pz.dominates(bsw, dispatch_bb):
+        ctx.instance(1)
+        ctx.oblig(False, None)
+        ctx.violation("bounds-test-conditional", pz.file_line(),
+                      "the pausing code does not examine check_pc_bounds() on every call before dispatching on its status (the test is skipped or its "
+                      "result merged with another value on some path): with the PC outside user space such a path leaves Continue/Step in place and "
+                      "the run loop skips execution forever")
+    else:
+        t = pz.term(bsw)
+        tg = {v: x for v, x in t["targets"]}
+        equal_edge = (bsw, tg[0]) if 0 in tg else (bsw, t["otherwise"])
+        r = pz.reachable(0, avoid=wb, edge_filter=lambda s, d: (s, d) != equal_edge)
+        ctx.instance(1)
+        ok = dispatch_bb not in r
+        ctx.oblig(ok, {"condition": "PC outside [origin, 0xFE00)", "wait assignments": len(wb)}, "must-pass WaitForAction on every non-Equal path")
+        if not ok:
+            p = _path(pz, 0, dispatch_bb, wb, equal_edge)
+            conds = _conds_on_path(pz, p)
+            ctx.violation("bounds-skip-no-wait", sp_file_line(pz.term(bsw).get("sp")),
+                          "with the PC outside user space a path reaches the state dispatch without resetting the status (lines %s; "
+                          "branch conditions: %s): under `continue`/`step` the run loop then skips execution forever without reading "
+                          "a command" % (pz.path_lines(p), conds))
     # (b) HALT condition: in the interrupt check, every path on which instr == Some(Halt) sets WaitForAction
     ci = None
     for b, t, c in pz.calls():
